@@ -1,10 +1,8 @@
 package main
 
 import (
-	"reflect"
 	"strings"
 
-	"github.com/M2MGateway/go-smpp/pdu"
 )
 
 // specNames translates a Go struct field into the SMPP v5 parameter names it
@@ -33,7 +31,7 @@ func genFieldNames(w *CoqWriter) {
 	ts := pduTypes()
 	for i, t := range ts {
 		var names []string
-		_, isReplace := reflect.New(t.T).Interface().(*pdu.ReplaceSM)
+		isReplace := observePrepare(t.T).isReplace
 		for j := 0; j < t.T.NumField(); j++ {
 			f := t.T.Field(j)
 			kind := classify(f.Type)
